@@ -26,7 +26,7 @@ SymNames == DOMAIN MCSyms
 VARIABLES e, phase, nreq, g, obs, hist
 vars == <<e, phase, nreq, g, obs, hist>>
 
-G0 == [inmoves |-> 0, matched |-> FALSE, read |-> FALSE, ok |-> TRUE, why |-> "", lvl |-> [k \in {} |-> 0]]
+G0 == [inmoves |-> 0, matched |-> FALSE, read |-> FALSE, ok |-> TRUE, why |-> "", lvl |-> [k \in {} |-> 0], croaked |-> FALSE]
 NoObs == [kind |-> "none", cont |-> TRUE, err |-> FALSE, panic |-> FALSE, page |-> NoPage, pre |-> NewSession(Cap, NFlags),
           input |-> "", incls |-> "ok", ran |-> FALSE, ended |-> FALSE]
 
@@ -47,7 +47,9 @@ GhostStep(pre, r) ==
       newsyms == {k \in SymNames : Visible(post.c, k) /\ ~Visible(pre.c, k)}
       lvl1 == [k \in {x \in DOMAIN g.lvl : Visible(post.c, x)} \cup newsyms |->
                  IF k \in newsyms THEN Len(post.path) ELSE g.lvl[k]]
-      g1 == [g EXCEPT !.lvl = lvl1]
+      \* KF-croak-keeps-path: a taken CROAK drops the cache scopes but keeps the path
+      g1 == [g EXCEPT !.lvl = lvl1,
+                      !.croaked = @ \/ (running /\ ins.op = "CROAK" /\ Len(post.c.frames) < Len(pre.c.frames))]
   IN
   IF ~running THEN g1
   ELSE IF ins.op = "INCMP" THEN
@@ -66,9 +68,9 @@ Request(in) ==
   /\ LET e0 == IF Mode = "P" THEN LoadEngine(e.s) ELSE e
          b == ExecBegin([e0 EXCEPT !.s.calls = <<>>, !.s.looks = <<>>], in, InClass(in)) IN
      /\ nreq' = nreq + 1
-     /\ g' = [G0 EXCEPT !.lvl = g.lvl]
+     /\ g' = [G0 EXCEPT !.lvl = g.lvl, !.croaked = g.croaked]
      /\ hist' = Append(hist, [input |-> in, picks |-> <<>>])
-     /\ IF b.run THEN /\ e' = b.e /\ phase' = "run"
+     /\ IF b.run THEN /\ e' = [b.e EXCEPT !.s = RunStart(@)] /\ phase' = "run"
                       /\ obs' = [NoObs EXCEPT !.kind = "begin", !.pre = e0.s, !.input = in, !.incls = InClass(in)]
         ELSE /\ e' = b.e /\ phase' = "flush"
              /\ obs' = [NoObs EXCEPT !.kind = "exec", !.cont = b.cont, !.err = b.err, !.pre = e0.s, !.input = in, !.incls = InClass(in)]
@@ -116,12 +118,12 @@ C03_NoMatchGoesToCatch == (obs.kind = "exec" /\ obs.ran /\ ~obs.err /\ g.read /\
 (* ---- C04 / C08 *)
 C04_PositionWellFormed == /\ S.idx >= 0 /\ \A i \in 1..Len(S.path) : S.path[i] \in DOMAIN MCProg
                           /\ (Len(S.path) > 0 => S.path[1] = Root)
-\* KF-H (known finding, CroakKeepsPath): a taken CROAK drops the cache scopes but keeps the path
-CroakTaken == \E i \in 1..Len(hist) : FALSE
+\* one cache scope per navigation level (carve-out: the known finding KF-croak-keeps-path, ghost g.croaked)
+C08_Levels == ~g.croaked => Levels(S)
 C08_Consistent == Consistent(S.c)
 C08_NoPanic == ~obs.panic
 (* ---- C05 *)
-C05_ScopeLifetime == \A k \in DOMAIN g.lvl : Visible(S.c, k) => (FrameOf(S.c, k) = g.lvl[k] + 1 /\ g.lvl[k] <= Len(S.path))
+C05_ScopeLifetime == ~g.croaked => \A k \in DOMAIN g.lvl : Visible(S.c, k) => (FrameOf(S.c, k) = g.lvl[k] + 1 /\ g.lvl[k] <= Len(S.path))
 C05_LimitsHold == LimitsHold(S.c)
 C05_MappedVisible == \A k \in DOMAIN S.mapped : Visible(S.c, k)
 (* ---- C06 *)
@@ -137,5 +139,6 @@ C20_GracefulEndUnwinds == (obs.kind = "flush" /\ obs.ended) =>
                              /\ S.path = <<>> /\ S.c.frames = <<EmptyF>> /\ S.c.used = 0 /\ S.code = <<>>
                              /\ TERMINATE \notin S.flags
 C20_ClientFlagsKept == (obs.kind = "flush" /\ obs.ended) => {f \in S.flags : f >= 8} = {f \in obs.pre.flags : f >= 8} \cup {f \in S.flags : f >= 8}
+C18_LangReaches == \A i \in DOMAIN S.looks : S.looks[i].want # "" => S.looks[i].lang = S.looks[i].want
 C20_RestartAtRoot == (obs.kind = "exec" /\ obs.ran /\ obs.pre.path = <<>> /\ ~obs.err /\ Len(S.path) > 0) => S.path[1] = Root
 =============================================================================
